@@ -22,18 +22,25 @@ Samples == { Card("px", <<1>>, 1), Card("p", <<1, 2, 0, 2>>, 1), Card("s", <<1, 
              Card("sq", <<1, 2, 0, 0, 0, 0, -4, 1, 0, 0>>, 1), Card("gq", <<1, 0, 1, 1, 0, 0, 0, 2, 0, -3>>, 1),
              Card("rpp", <<-1, 2, 0, 1, -1, 1>>, 1), Card("rcc", <<0, 0, -1, 0, 0, 3, 1>>, 1),
              Card("x", <<-1, 0, 1, 2>>, 1), Card("p", <<1, 0, 0, 1, 1, 0, 0, 0, 2>>, 1) }
-SamplesL == IF Lvl = 1 THEN { c \in Samples : c.k \in {"p", "c/z", "kz", "k/x", "tz", "sq", "rpp"} } ELSE Samples
+SamplesL == IF Lvl = 1 THEN { c \in Samples : c.k \in {"p", "c/z", "kz", "k/x", "tz", "sq", "rpp", "rcc"} } ELSE Samples
 Disps == IF Lvl = 1 THEN { <<2, -1, 0>> } ELSE { <<0, 0, 0>>, <<2, -1, 0>>, <<0, 1, -2>> }
-Carriers == {"surftr", "trclnum", "trclinline", "trclstar", "implicit", "implicitneg"}
+(* "implicitdense": the deck's largest explicit surface number lies just below the implicit number   *)
+(* 1000*c+s and the cell c that carries the TRCL lists another surface first, so that surface keys    *)
+(* allocated by the TRCL pass would collide with the implicit surface if the free key were taken too  *)
+(* early                                                                                              *)
+Carriers == {"surftr", "trclnum", "trclinline", "trclstar", "implicit", "implicitneg", "implicitdense"}
+(* facet of the body the probe cells refer to (0 = the whole body / an ordinary surface) *)
+FacetsOf(c) == IF c.k = "rpp" THEN {0, 1, 4, 5} ELSE IF c.k = "rcc" THEN {0, 1, 2} ELSE {0}
 Spells == {"12", "13", "star", "rows12", "rows13", "rows23", "cols12", "cols13", "cols23"}
 
 VARIABLES pc, rec
 Init == pc = "pick" /\ rec = <<>>
 Pick == /\ pc = "pick"
-        /\ \E c \in SamplesL, m \in Rotations24, o \in Disps, ca \in Carriers, sp \in Spells :
+        /\ \E c \in SamplesL, m \in Rotations24, o \in Disps, ca \in Carriers, sp \in Spells, fk \in {0, 1, 2, 4, 5} :
+              /\ fk \in FacetsOf(c)
               /\ (ca \in {"trclinline", "trclstar"} => sp \in {"12", "13", "star"})
               /\ (ca = "trclstar" <=> sp = "star") \/ ca \notin {"trclinline", "trclstar"}
-              /\ rec' = [card |-> c, tr |-> [o |-> o, m |-> m], carrier |-> ca, spell |-> sp]
+              /\ rec' = [card |-> c, tr |-> [o |-> o, m |-> m], carrier |-> ca, spell |-> sp, facet |-> fk]
         /\ pc' = "emit"
 Emit == pc = "emit" /\ PrintT(ToJson(rec)) /\ pc' = "done" /\ UNCHANGED rec
 Next == Pick \/ Emit
